@@ -262,6 +262,7 @@ int main(int argc, char **argv)
 
         rng_t r;
         rng_seed(&r, seed);
+        arena_setup();
         uint8_t *ctx, *ref;
         if (posix_memalign((void **) &ctx, 64, A->ctx_size) || posix_memalign((void **) &ref, 64, A->ctx_size))
                 return 2;
@@ -305,12 +306,14 @@ int main(int argc, char **argv)
                         }
                         uint32_t len = pick_len(&r, maxlen, tot);
                         uint64_t dseed = rng_u64(&r);
-                        uint8_t *data = buf + rng_below(&r, 64);
+                        uint8_t *sd = rng_below(&r, 6) == 0 ? arena_straddle(&r, len, 1) : NULL;   /* across a 4 GiB boundary */
+                        uint8_t *data = sd ? sd : buf + rng_below(&r, 64);
                         xs_bytes(dseed, data, len);
                         memcpy(copy, data, len);
                         fprintf(fo, "U %u %llu\n", len, (unsigned long long) dseed);
                         if (((update_fn) F->update)(ctx, data, len)) monitor("rc update");
                         if (memcmp(copy, data, len)) monitor("caller buffer modified");
+                        if (sd) arena_release();
                         tot += len;
                         if (*(uint64_t *) (ctx + A->off_total) != tot) monitor("total_length");
                         if (msglen + len > msgcap) msg = realloc(msg, msgcap = 2 * (msglen + len));
